@@ -1,0 +1,60 @@
+//! Event log for trace validation.  Compiled only with `--cfg desert_verif`; off until `enable(true)`.
+//!
+//! One event per library-level action, appended after the state change (also on the error
+//! path) under a mutex that also hands out the sequence number.
+use std::sync::atomic::{AtomicBool, AtomicU64, Ordering};
+use std::sync::Mutex;
+
+#[derive(Debug, Clone)]
+pub struct Event {
+    pub seq: u64,
+    pub thread: u64,
+    pub kind: &'static str,
+    pub a: i64,
+    pub b: i64,
+    pub c: i64,
+    pub d: i64,
+    pub s: String,
+}
+
+static ENABLED: AtomicBool = AtomicBool::new(false);
+static NEXT_THREAD: AtomicU64 = AtomicU64::new(1);
+static LOG: Mutex<(u64, Vec<Event>)> = Mutex::new((0, Vec::new()));
+
+thread_local! {
+    static THREAD: u64 = NEXT_THREAD.fetch_add(1, Ordering::Relaxed);
+}
+
+pub fn enable(on: bool) {
+    ENABLED.store(on, Ordering::SeqCst);
+}
+
+pub fn is_enabled() -> bool {
+    ENABLED.load(Ordering::Relaxed)
+}
+
+/// Removes and returns the events recorded so far.
+pub fn take() -> Vec<Event> {
+    let mut log = LOG.lock().unwrap_or_else(|e| e.into_inner());
+    std::mem::take(&mut log.1)
+}
+
+pub fn emit(kind: &'static str, a: i64, b: i64, c: i64, d: i64, s: &str) {
+    if !ENABLED.load(Ordering::Relaxed) {
+        return;
+    }
+    let thread = THREAD.with(|t| *t);
+    let mut log = LOG.lock().unwrap_or_else(|e| e.into_inner());
+    log.0 += 1;
+    let seq = log.0;
+    log.1.push(Event {
+        seq,
+        thread,
+        kind,
+        a,
+        b,
+        c,
+        d,
+        s: s.to_string(),
+    });
+}
